@@ -164,36 +164,46 @@ def run(tier="quick", seed=0, replay=None):
             if f:
                 chk.violation(f"normalize-public:{mode}", f"{kind} {_expl.cfg_desc(cfg)}: get_normalized_importance_values({mode!r}): {f}",
                               _expl.replay_payload(rig, cfg, len(rig.steps) - 1))
-        prev = None
-        if any(f not in var for f in rig.names):
-            # before the first estimate no variance is tracked, so the formula of the property has nothing to refer to
-            chk.stat("bound_skipped_no_variance_tracked_yet")
-            continue
-        for delta in (1e-3, 0.05, 0.5, 1.0):
-            try:
-                cb = ex.get_confidence_bound(delta)
-            except Exception as exn:
-                chk.violation("confidence-bound", f"{kind} {_expl.cfg_desc(cfg)}: get_confidence_bound({delta}) raised {core.err_kind(exn)}: {exn}",
-                              _expl.replay_payload(rig, cfg, len(rig.steps) - 1))
-                break
-            a, t = float(alpha), ex.seen_samples
-            chk.stat("bound_dynamic" if dyn else "bound_static")
-            for f in rig.names:
-                v = float(var.get(f, 0)) if var else 0.0
-                want = (1 - a) ** t + math.sqrt(v * a / ((2 - a) * delta))
-                got = cb[f]
-                if not (math.isfinite(got) and got >= 0 and abs(got - want) <= 1e-9 * max(1.0, want)):
-                    chk.violation("confidence-bound", f"{kind} alpha={rs(alpha)} t={t} variance={v} delta={delta}: bound {got}, formula gives {want}",
+        # the bound is queried again, with the same deltas, after further calls of the same stream: the formula refers to the
+        # CURRENT number of calls and variance, whatever was asked before (a memoised answer of an earlier state is a violation)
+        for requery in range(3):
+            if requery:
+                for _ in range(chk.rng.randint(1, 2)):
+                    rig.step()
+                var = ex.variances
+                chk.stat("bound_requeried_after_further_calls")
+            prev = None
+            if requery == 0:
+                asked_at = [ex.seen_samples]
+            if any(f not in var for f in rig.names):
+                # before the first estimate no variance is tracked, so the formula of the property has nothing to refer to
+                chk.stat("bound_skipped_no_variance_tracked_yet")
+                continue
+            for delta in (1e-3, 0.05, 0.5, 1.0):
+                try:
+                    cb = ex.get_confidence_bound(delta)
+                except Exception as exn:
+                    chk.violation("confidence-bound", f"{kind} {_expl.cfg_desc(cfg)}: get_confidence_bound({delta}) raised {core.err_kind(exn)}: {exn}",
                                   _expl.replay_payload(rig, cfg, len(rig.steps) - 1))
-                if (a < 1 or v > 0) and not got > 0:
-                    chk.violation("confidence-bound", f"{kind} alpha={rs(alpha)} t={t} variance={v} delta={delta}: bound {got} is not positive",
-                                  _expl.replay_payload(rig, cfg, len(rig.steps) - 1))
-                if prev is not None and got > prev[f] * (1 + 1e-12) + 1e-300:
-                    chk.violation("confidence-bound", f"{kind}: bound increased from {prev[f]} to {got} when delta grew to {delta}",
-                                  _expl.replay_payload(rig, cfg, len(rig.steps) - 1))
-                reqs.append({"op": "confbound_f", "alpha": bits(a), "variance": bits(v), "delta": bits(delta), "seen": t})
-                impls.append(("confbound", {"alpha": a, "seen": t, "variance": v, "delta": delta}, got))
-            prev = cb
+                    break
+                a, t = float(alpha), ex.seen_samples
+                chk.stat("bound_dynamic" if dyn else "bound_static")
+                for f in rig.names:
+                    v = float(var.get(f, 0)) if var else 0.0
+                    want = (1 - a) ** t + math.sqrt(v * a / ((2 - a) * delta))
+                    got = cb[f]
+                    if not (math.isfinite(got) and got >= 0 and abs(got - want) <= 1e-9 * max(1.0, want)):
+                        chk.violation("confidence-bound", f"{kind} alpha={rs(alpha)} t={t} variance={v} delta={delta}: bound {got}, formula gives {want}" + (f" (query round {requery + 1}: get_confidence_bound was asked with the deltas 0.001, 0.05, 0.5, 1.0 after call {asked_at[0]} already, then the stream went on to call {t})" if requery else ""),
+                                      _expl.replay_payload(rig, cfg, len(rig.steps) - 1))
+                    if (a < 1 or v > 0) and not got > 0:
+                        chk.violation("confidence-bound", f"{kind} alpha={rs(alpha)} t={t} variance={v} delta={delta}: bound {got} is not positive",
+                                      _expl.replay_payload(rig, cfg, len(rig.steps) - 1))
+                    if prev is not None and got > prev[f] * (1 + 1e-12) + 1e-300:
+                        chk.violation("confidence-bound", f"{kind}: bound increased from {prev[f]} to {got} when delta grew to {delta}",
+                                      _expl.replay_payload(rig, cfg, len(rig.steps) - 1))
+                    reqs.append({"op": "confbound_f", "alpha": bits(a), "variance": bits(v), "delta": bits(delta), "seen": t})
+                    impls.append(("confbound", {"alpha": a, "seen": t, "variance": v, "delta": delta}, got))
+                prev = cb
     if core.driver_available():
         try:
             answers = core.run_driver(reqs)
